@@ -1,6 +1,6 @@
 """unit reductors: detail::value_reductors -- how a reduction reaches the user's functor: invoke -> reductors[i] ->
 reduce_value<RuleIdx,..> -> reduce_value_impl -> f(args...).
-R13 (extended): values are opaque, but their *value category* is tracked: std::move(x) / std::forward<T>(x) vs. the bare name.
+R13 + R20: values are opaque, but their *value category* is tracked: std::move(x) / std::forward<T>(x) vs. the bare name.
 The argument pack `std::get<RValueType>(std::move(*(start + I)))...` is the ghost pack (start, n, rvalue); without the std::move it
 is (start, n, lvalue).  `if constexpr` on template parameters becomes `if` on ghost parameters (R9)."""
 import os, sys, re
@@ -11,9 +11,9 @@ from vx.lower import S, Call, ExtractionBreak, split_top
 HERE = os.path.dirname(os.path.abspath(__file__))
 fns = []
 VR = [r'struct\s+value_reductors\s*(?=\{)']
-CTX = [S(r'std::forward<Context>\((ctx|context)\)', r'VX_FWD_\1', min=0, name='R13:std::forward<Context>(x) keeps the value category'),
-       S(r'(?<![\w.>])(ctx|context)\b', r'vx_lvalue(\1)', min=0, name='R13:a bare parameter name is an lvalue'),
-       S(r'VX_FWD_(ctx|context)', r'\1', min=0, name='R13:forwarded')]
+CTX = [S(r'std::forward<Context>\((ctx|context)\)', r'VX_FWD_\1', min=0, name='R20:std::forward<Context>(x) keeps the value category'),
+       S(r'(?<![\w.>])(ctx|context)\b', r'vx_lvalue(\1)', min=0, name='R20:a bare parameter name is an lvalue'),
+       S(r'VX_FWD_(ctx|context)', r'\1', min=0, name='R20:forwarded')]
 
 
 def _ret(m, parts):
@@ -31,10 +31,10 @@ def _ret(m, parts):
     return 'return vx_construct(%s)' % e
 
 
-IMPL = [S(r'std::get<RValueType>\(std::move\(\*\(start \+ I\)\)\)\.\.\.', 'vx_pack(start, VX_RVALUE)', min=0, name='R13:pack of moved stack slots'),
-        S(r'std::get<RValueType>\(\*\(start \+ I\)\)\.\.\.', 'vx_pack(start, VX_LVALUE)', min=0, name='R13:pack of stack slots passed as lvalues'),
-        S(r'if constexpr \(std::is_same_v<F, std::nullptr_t>\)', 'if (P_F_IS_NULLPTR)', name='R9:if constexpr on F'),
-        S(r'if constexpr \(RequiresContext\)', 'if (P_REQUIRES_CONTEXT)', name='R9:if constexpr on RequiresContext'),
+IMPL = [S(r'std::get<RValueType>\(std::move\(\*\(start \+ I\)\)\)\.\.\.', 'vx_pack(start, VX_RVALUE)', min=0, name='R20:pack of moved stack slots'),
+        S(r'std::get<RValueType>\(\*\(start \+ I\)\)\.\.\.', 'vx_pack(start, VX_LVALUE)', min=0, name='R20:pack of stack slots passed as lvalues'),
+        S(r'if constexpr \(std::is_same_v<F, std::nullptr_t>\)', 'if (P_F_IS_NULLPTR)', name='R17:if constexpr on F'),
+        S(r'if constexpr \(RequiresContext\)', 'if (P_REQUIRES_CONTEXT)', name='R17:if constexpr on RequiresContext'),
         S(r'\bf\(ctx,', 'f(VX_BARE_ctx,', min=0), S(r'\bf\(std::forward<Context>\(ctx\),', 'f(VX_FWD_ctx,', min=0),
         S(r'VX_BARE_ctx', 'vx_lvalue(ctx)', min=0), S(r'VX_FWD_ctx', 'ctx', min=0),
         Call(r'return LValueType', _ret, min=3, name='R13:LValueType(e) -> the value e constructs')]
